@@ -55,10 +55,11 @@ PROPS = {
         "inventory_closure": True,
         "lean": ["GldapModel.Props.C01"],
         "audit": "GldapModel/Audit/C01.lean",
-        "inventory": DECODE_FUNCS,
+        "inventory": DECODE_FUNCS + ["conn.serveRequests", "conn.readRequest", "conn.readPacket"],
         "streams": [
             {"stream": "decode-valid", "n_quick": 20000, "n_thorough": 2000000},
             {"stream": "clientwire", "n_quick": 1500, "n_thorough": 100000},
+            {"stream": "c13", "n_quick": 8, "n_thorough": 100, "timeout_quick": 900, "timeout_thorough": 6000},
         ],
         "trusted": BER_TRUST,
         "assumptions": ["filters are compared semantically: the delivered filter string must recompile to the client's filter bytes"],
@@ -70,7 +71,7 @@ PROPS = {
                       "Mux.Modify", "Mux.Add", "Mux.Delete", "Mux.DefaultRoute", "NewMux", "baseRoute.handler", "baseRoute.op",
                       "baseRoute.match", "deleteRoute.match", "addRoute.match", "modifyRoute.match", "simpleBindRoute.match",
                       "extendedRoute.match", "searchRoute.match", "newRequest", "WithBaseDN", "WithFilter", "WithScope",
-                      "getRouteOpts", "routeDefaults", "conn.serveRequests", "Request.NewResponse"],
+                      "getRouteOpts", "routeDefaults", "conn.serveRequests", "Request.NewResponse", "NewServer", "Server.Router"],
         "streams": [
             {"stream": "mux", "n_quick": 30000, "n_thorough": 1500000},
             {"stream": "c06", "n_quick": 12, "n_thorough": 300, "timeout_quick": 900, "timeout_thorough": 6000},
@@ -109,9 +110,11 @@ PROPS = {
         "lean": ["GldapModel.Props.C19"],
         "audit": "GldapModel/Audit/C19.lean",
         "inventory": ["td.Directory.handleBind", "Entry.GetAttributeValues", "Request.GetSimpleBindMessage", "Request.NewBindResponse",
-                      "td.Directory.SetAllowAnonymousBind", "td.Directory.SetUsers"],
+                      "td.Directory.SetAllowAnonymousBind", "td.Directory.SetUsers", "td.Start", "td.WithDefaults", "td.getOpts", "td.applyOpts", "td.defaults",
+                      "newMessage", "newRequest"],
         "streams": [
             {"stream": "tdbind", "n_quick": 20000, "n_thorough": 1500000},
+            {"stream": "tdlive", "n_quick": 60, "n_thorough": 2000, "timeout_quick": 900, "timeout_thorough": 6000},
         ],
         "trusted": BER_TRUST,
         "assumptions": ["plain / TLS / StartTLS transports deliver the same bind request to the handler (C13, C18); this check drives the handler in-process through the directory's own mux"],
@@ -149,7 +152,7 @@ PROPS = {
     "C07": {
         "lean": ["GldapModel.Props.C07"], "audit": "GldapModel/Audit/C07.lean",
         "inventory": LIFECYCLE_FUNCS,
-        "streams": [{"stream": "c07", "n_quick": 14, "n_thorough": 280, "timeout_quick": 900, "timeout_thorough": 6000}],
+        "streams": [{"stream": "c07", "n_quick": 16, "n_thorough": 320, "timeout_quick": 900, "timeout_thorough": 6000}],
         "trusted": RUNTIME_TRUST,
         "assumptions": ["partial: stack exhaustion in the third-party BER reader on deeply nested input is a fatal error no recover can catch; it is outside the model and recorded as a known finding"],
     },
